@@ -118,6 +118,8 @@ def outline_markers(result):
 def to_trace(run, s, item, rec):
     """recorded events of one run -> TraceServer events"""
     ev = [{"ev": "Reset"}]
+    if rec.get("outcome") == "Skipped":
+        return ev + [{"ev": "End", "run": run}]
     for f in FILES:
         t = s["disk"][f]
         ev.append({"ev": "Disk", "file": f, "t": with_marks(f, t)})
@@ -389,6 +391,9 @@ def check_c08(tier, seed):
     traces = []
     for i, (it, rec) in enumerate(zip(items, recs)):
         ev = [{"ev": "Reset"}]
+        if rec.get("outcome") == "Skipped":
+            traces.append(ev + [{"ev": "End", "run": i}])
+            continue
         if rec.get("outcome") in ("Crash", "Hang", "Panic"):
             ev.append({"ev": "Crash"})
         for e in rec.get("events", []):
@@ -422,7 +427,7 @@ def check_c08(tier, seed):
         v.report(fp, {"meta": m, "counters": rec.get("counters"), "diverged": rec.get("diverged"), "hooks_tail": rec.get("hooks", [])[-12:]},
                  {"item": {k: val for k, val in items[i].items()}})
     nm = sum(1 for m in meta if m["family"] == "model-schedule")
-    if reached < 10:
+    if not v.violations and reached < 10:
         raise ToolError("vacuous: only %d hold points were reached" % reached)
     level = "model_checking"
     cov = {"states": states + tstates, "transitions": trans + tstates, "traces_validated_against_impl": len(items),
